@@ -89,6 +89,14 @@ def build_config(scn, workdir=None):
            'default_data_file': os.path.join(os.path.abspath(workdir), 't.data') if workdir else 't.data',
            'benchmark_suites': suites, 'executors': execs,
            'experiments': {'T': {'executions': [{'E%d%s' % (x, nsfx): {'suites': ss}} for x, ss in sorted(per_exe.items())]}}}
+    if scn.get('second_file_runs') is not None:
+        # a second experiment with its OWN data file that contains some of the runs of the first one
+        sub = {}
+        for i in scn['second_file_runs']:
+            sub.setdefault(runs[i]['exe'], []).append('S%d%s' % (i, nsfx))
+        cfg['experiments']['T2'] = {
+            'data_file': os.path.join(os.path.abspath(workdir), 't2.data') if workdir else 't2.data',
+            'executions': [{'E%d%s' % (x, nsfx): {'suites': ss}} for x, ss in sorted(sub.items())]}
     if scn.get('two_experiments'):
         # the same runs belong to a second experiment that shares the data file; the session runs `all`
         import copy
@@ -386,7 +394,8 @@ def run_session(workdir, scn, sess, timeout_guard=None):
                                  for r in runs)
         return orig(self, runs, *a, **kw)
 
-    argv = [conf] + (['all'] if scn.get('two_experiments') else []) + list(sess.get('argv') or [])
+    argv = [conf] + (['all'] if scn.get('two_experiments') or scn.get('second_file_runs') is not None else []) \
+        + list(sess.get('argv') or [])
     if sess.get('sched') and sess['sched'] != 'batch':
         argv += ['-s', sess['sched']]
     if sess.get('faulty'):
@@ -457,6 +466,8 @@ def run_session(workdir, scn, sess, timeout_guard=None):
             'N': r.invocations}
     obs['final'] = final
     obs['file'] = read_rows(os.path.join(workdir, 't.data'))
+    if scn.get('second_file_runs') is not None:
+        obs['raw_files'] = dict((name, drive.read_data_file(os.path.join(workdir, name))) for name in ('t.data', 't2.data'))
     # free scripted processes that still wait for a kill (interrupt scenarios)
     return obs
 
